@@ -841,6 +841,86 @@ theorem stuck_elsewhere (s : State) (hc : Conserved s) (m : Nat) (hm : m ∈ s.s
   unfold total at this
   refine ⟨?_, ?_, ?_, ?_⟩ <;> apply count_zero_not_mem <;> omega
 
+/-! ### attempts on the wire -/
+
+/-- Every attempt went over the wire with the number the message carries (now and ever since). -/
+def WireOK (s : State) : Prop := ∀ p ∈ s.wire, seqOf s p.1 = some p.2
+
+theorem wireOK_init : WireOK init := by simp [WireOK, init]
+
+theorem zip_seq (s : State) (l : List Nat) (qs : List Nat) (h : l.map (seqOf s) = qs.map some)
+    (p : Nat × Nat) (hp : p ∈ l.zip qs) : seqOf s p.1 = some p.2 := by
+  induction l generalizing qs with
+  | nil => simp at hp
+  | cons a l ih =>
+    cases qs with
+    | nil => simp at hp
+    | cons q qs =>
+      simp only [List.map_cons, List.cons.injEq] at h
+      simp only [List.zip_cons_cons, List.mem_cons] at hp
+      rcases hp with hp | hp
+      · subst hp; exact h.1
+      · exact ih qs h.2 hp
+
+/-- what a step adds to the wire log carries the message's number -/
+theorem wire_step (s s' : State) (e : Ev) (h : next s e = some s') :
+    ∀ p ∈ s'.wire, p ∈ s.wire ∨ seqOf s' p.1 = some p.2 := by
+  cases e with
+  | send i q =>
+    simp only [next] at h; split at h <;> cases h
+    rename_i hg
+    intro p hp
+    rcases List.mem_append.mp hp with hp | hp
+    · exact Or.inl hp
+    · right
+      simp only [List.mem_singleton] at hp; subst hp
+      unfold seqOf; simp only; rw [hg.2.2]; exact seqsAfter_self s i
+  | postBatch sent qs =>
+    cases sent <;> simp only [next] at h <;> split at h <;> (try (cases h))
+    · intro p hp; exact Or.inl hp
+    · rename_i hg
+      intro p hp
+      rcases List.mem_append.mp hp with hp | hp
+      · exact Or.inl hp
+      · exact Or.inr (zip_seq s s.batch qs hg.2.1 p hp)
+  | produce i k => simp only [next] at h; split at h <;> cases h; exact fun p hp => Or.inl hp
+  | buf i q =>
+    simp only [next] at h; (repeat' split at h) <;> (try (cases h)) <;> exact fun p hp => Or.inl hp
+  | bufTask i q => simp only [next] at h; split at h <;> cases h; exact fun p hp => Or.inl hp
+  | reject i => simp only [next] at h; split at h <;> cases h; exact fun p hp => Or.inl hp
+  | ok i =>
+    simp only [next] at h
+    split at h
+    · split at h <;> cases h; exact fun p hp => Or.inl hp
+    · cases h
+  | fail i =>
+    simp only [next] at h
+    split at h
+    · split at h <;> cases h; exact fun p hp => Or.inl hp
+    · cases h
+  | cancel i =>
+    simp only [next] at h; (repeat' split at h) <;> (try (cases h)) <;> exact fun p hp => Or.inl hp
+  | setState t =>
+    cases t <;> simp only [next] at h <;> (try (cases h)) <;>
+      (repeat' split at h) <;> (try (cases h)) <;> exact fun p hp => Or.inl hp
+  | take n => simp only [next] at h; split at h <;> cases h; exact fun p hp => Or.inl hp
+  | connect b => simp only [next] at h; split at h <;> cases h; exact fun p hp => Or.inl hp
+  | disconnect => simp only [next] at h; cases h; exact fun p hp => Or.inl hp
+  | wait i self =>
+    cases self <;> simp only [next] at h <;> split at h <;> (try (cases h)) <;> exact fun p hp => Or.inl hp
+  | waitOther => simp only [next] at h; split at h <;> cases h; exact fun p hp => Or.inl hp
+  | taskSet k => simp only [next] at h; cases h; exact fun p hp => Or.inl hp
+  | taskClear self =>
+    cases self <;> simp only [next] at h
+    · split at h <;> cases h <;> exact fun p hp => Or.inl hp
+    · split at h <;> cases h; exact fun p hp => Or.inl hp
+
+theorem wireOK_step (s s' : State) (e : Ev) (h : next s e = some s') (hw : WireOK s) : WireOK s' := by
+  intro p hp
+  rcases wire_step s s' e h p hp with h1 | h1
+  · exact seqOf_stable s s' e h p.1 p.2 (hw p h1)
+  · exact h1
+
 /-! ### orphaned buffer tasks -/
 
 theorem orphans_mono (s s' : State) (e : Ev) (h : next s e = some s') : s.orphans ≤ s'.orphans := by
